@@ -9,8 +9,8 @@
 (b) `main.format_files` bookkeeping: real function, `mp.Pool` stubbed by the documented contract of starmap
     (results in input order, tasks executed in a solver-chosen order), `format_file` stubbed to return a symbolic
     'changed' bit per (file, pass): return value and multiset of (file, pass) invocations equal those of a
-    sequential reference model, for <= 4 files in <= 2 folders, max_passes <= 3, every order of the file list,
-    n_cores in {1, 4};
+    sequential reference model, for <= 4 files in <= 2 folders, max_passes <= 3, every order of the file list and
+    lists naming a file twice, n_cores in {1, 4};
 (c) witness: rules that iterate over sets (remove_unused_imports, undefine_unused_variables ...) give the same
     text under PYTHONHASHSEED in {0, 1, 2, 3} on pool programs (concrete subprocess runs; not counted as
     symbolic coverage)."""
@@ -125,7 +125,8 @@ def ob_files(order, max_passes, n_cores, nfiles):
     from vk import sym
 
     main = importlib.import_module("pyrefact.main")
-    FILES = _files(nfiles)
+    ALL = _files(nfiles)
+    FILES = [ALL[i] for i in sorted(set(order))]  # the file list may name a file more than once
 
     def harness(eng):
         calls = []
@@ -167,9 +168,7 @@ def ob_files(order, max_passes, n_cores, nfiles):
         main.format_file = fmt
         main._used_names_in_files = lambda fs: {}
         try:
-            for v in range(len(FILES)):
-                pass
-            ret = main.format_files([FILES[i] for i in order], n_cores=n_cores, max_passes=max_passes)
+            ret = main.format_files([ALL[i] for i in order], n_cores=n_cores, max_passes=max_passes)
         finally:
             main.mp, main.format_file, main._used_names_in_files = saved
         # sequential reference: per folder, pass p is run iff all earlier passes changed something in the folder
@@ -270,9 +269,16 @@ def obligations(tier, seed):
             for mp_ in (1, 2, 3):
                 for nc in (1, 4):
                     combos.append((list(order), mp_, nc, nfiles))
+    # file lists that name a file twice (a directory and one of its files on the command line)
+    dups = []
+    for order in ([0, 0], [0, 1, 0], [1, 0, 0], [0, 1, 1], [0, 2, 0], [0, 1, 2, 0], [2, 0, 1, 2], [2, 2, 0]):
+        for mp_ in (1, 2, 3):
+            for nc in (1, 4):
+                dups.append((order, mp_, nc, max(order) + 1))
     if quick:
         combos = [c for c in combos if c[3] <= 2] + rnd.sample([c for c in combos if c[3] == 3], 12) + \
             rnd.sample([c for c in combos if c[3] == 4], 6)
+    combos = combos + dups
     for order, mp_, nc, nf in combos:
         obs.append(Obligation("files/%d/%s/p%d/c%d" % (nf, "".join(map(str, order)), mp_, nc), ob_files,
                               {"order": order, "max_passes": mp_, "n_cores": nc, "nfiles": nf}, hard_timeout=300,
@@ -327,7 +333,8 @@ def replay(case):
     if k == "files":
         main = importlib.import_module("pyrefact.main")
         p, m = case["params"], case["model"]
-        FILES = _files(p["nfiles"])
+        ALL = _files(p["nfiles"])
+        FILES = [ALL[i] for i in sorted(set(p["order"]))]
         calls = []
 
         def fmt(filename, preserve, safe):
@@ -353,7 +360,7 @@ def replay(case):
         main.format_file = fmt
         main._used_names_in_files = lambda fs: {}
         try:
-            ret = main.format_files([FILES[i] for i in p["order"]], n_cores=p["n_cores"], max_passes=p["max_passes"])
+            ret = main.format_files([ALL[i] for i in p["order"]], n_cores=p["n_cores"], max_passes=p["max_passes"])
         finally:
             main.mp, main.format_file, main._used_names_in_files = saved
         folders = {}
